@@ -44,6 +44,8 @@ def jobs(tier, seed):
         add(d, ALL, var="v1")
     for d in fam.f1(fam.V, tier):
         add(d, STRUCT, var="v1")
+    for d in fam.f1(fam.P, "quick"):
+        add(d, REP7, var="t")          # a variable that occurs nowhere in the expression
     for d in fam.unary_variants(fam.X, tier) + [["Multiply", fam.X, fam.X], ["Power", fam.X, fam.X], ["Divide", ["const", 1], fam.X], ["Add"], ["const", 2]]:
         add(d, ["fwd"] + ONEVAR + ["struct_deriv_early_late"], var="x", supplied=["x"])
     for d in fam.f1_shared(tier):
